@@ -6,7 +6,10 @@ import numpy as np
 from .framework import Spec
 
 
-def fmt_pairs(arr):
+def fmt_pairs(arr, table=False):
+    a_ = np.asarray(arr)
+    if table and (a_.ndim != 2 or a_.shape[1] != 2):     # run detection returns a table of [start, end) pairs, also when empty
+        return f'err shape{tuple(a_.shape)}'
     rows = [(int(a), int(b)) for a, b in arr]
     return 'ok ' + (','.join(f'{a}:{b}' for a, b in rows) if rows else '-')
 
@@ -336,7 +339,8 @@ class C18(Spec):
     def _one(self, util, op, arg, d=None, var=None, mut=False, scale=1):
         """One call; canonical line + flags: ARG-MODIFIED (the call changed its argument), REPEAT-DIFFERS (after the
         caller overwrote the returned table, the same call gives another answer)."""
-        fmt = (lambda r: fmt_scaled(r, scale)) if scale != 1 else fmt_pairs
+        fmt = (lambda r: fmt_scaled(r, scale)) if scale != 1 else \
+            ((lambda r: fmt_pairs(r, table=True)) if op == 'epochs' else fmt_pairs)
         try:
             before = snapshot(arg)
             r = self._call(util, op, arg, d, var)
